@@ -954,7 +954,12 @@ class Interp:
                 out += str(v.value)
             else:
                 t = self.expr(v.value, env, fi)
-                out += "{" + self._tmpl_piece(t, v.value) + "}"
+                if isinstance(t, tuple) and t and t[0] in ("tmpl",):
+                    out += t[1]          # a path built from a path: splice, do not nest
+                elif isinstance(t, tuple) and t and t[0] == "const" and isinstance(t[1], str):
+                    out += t[1]
+                else:
+                    out += "{" + self._tmpl_piece(t, v.value) + "}"
         return ("tmpl", out)
 
     def _tmpl_piece(self, t, node):
